@@ -38,7 +38,61 @@ def run(R, ctx):
     _c01.swap_rules(Relabel(R, {'R01.4': 'R16.9'}), ctx)
     import c14 as _c14
     _c14.suffix_agreement(R, ctx, rule='R16.8')
+    rotation_default(R, ctx)
     family_predicate_proxy(R, ctx, 'R16.8', 'existing_log_files lists exactly the family: the predicate of the listing agrees with the naming (shared with R14.2)')
+
+def rotation_default(R, ctx):
+    """R16.10 - documented default: with rotation the start time is NOT part of the file names unless the user asked for it.  The builder
+    keeps `rotation configured => the default of the timestamp switch is false` as an invariant of its two fields; every builder method
+    that stores a rotation configuration or a file spec must apply that default to THE FILE SPEC THAT ENDS UP STORED (in whatever
+    order the user calls the methods).  Decided on the decision rows of every method of the builder type."""
+    f = ctx.f
+    R.rule('R16.10', 'builder invariant: rotation configured => timestamp default false applied to the stored file spec, in every setter')
+    bt = next((a for a in f.adts if re.search(r'builder::FileLogWriterBuilder$', a)), None)
+    if bt is None:
+        raise CheckError("R16.10: FileLogWriterBuilder not found")
+    fields = [x['name'] for x in f.adts[bt]['variants'][0]['fields']]
+    ftys = [x['ty'] for x in f.adts[bt]['variants'][0]['fields']]
+    i_fs = [i for i, t in enumerate(ftys) if re.search(r'(^|::)FileSpec$', t)]
+    i_rot = [i for i, t in enumerate(ftys) if re.search(r'Option<.*RotationConfig>$', t)]
+    if len(i_fs) != 1 or len(i_rot) != 1:
+        raise CheckError(f"R16.10: fields of the builder not recognised ({ftys})")
+    i_fs, i_rot = i_fs[0], i_rot[0]
+    DEF = r'FileSpec::if_default_use_timestamp$'
+    n = 0
+    for b in f.fn_bodies():
+        if b.kind == 'Closure' or not b.path.startswith(bt + '::') or not (b.sig or '').rstrip().endswith(('-> Self', bt.split('::')[-1], bt)):
+            continue
+        if b.arg_count == 0 or not re.search(r'FileLogWriterBuilder$', b.locals[1]['ty']):
+            continue
+        try:
+            rows = FDI(f, effects=[DEF], no_inline=[DEF]).run(b.path)
+        except Exception as e:
+            raise CheckError(f"R16.10 {b.path}: {type(e).__name__} {e}")
+        for r in rows:
+            res = r.result
+            if not isinstance(res, Agg) or res.adt != bt:
+                continue
+            fs, rot = repr(res.fields[i_fs]), res.fields[i_rot]
+            fs_in, rot_in = f"$self.{fields[i_fs]}", f"$self.{fields[i_rot]}"
+            rot_some = (isinstance(rot, Agg) and rot.variant == 'Some')
+            rot_new = rot_some and not repr(rot).startswith(f"Option::Some({rot_in}.0")
+            fs_new = not (fs == fs_in or fs.startswith(fs_in + "'"))
+            if not rot_some or not (rot_new or fs_new):
+                continue
+            n += 1
+            applied = [e for e in r.effects if re.search(DEF, e[0]) and e[1][-1] == 'False']
+            # the spec the default was applied to = the stored one: its name, followed by the mark of a mutated version
+            ok = any(fs.startswith('$' + e[1][0].lstrip('&') + "'") for e in applied)
+            key = f"{b.path}|{'stores-rotation' if rot_new else 'stores-file-spec'}"
+            R.check('R16.10', key, ok, f"default applied to the stored spec ({fs})",
+                    f"{b.path}: with a rotation configured the builder ends up with the file spec {fs}, but the `no start time by default` rule was applied to "
+                    f"{[e[1][0] for e in applied] or 'nothing'}: depending on the order of the builder calls the files are named `<basename>_<start time>_r...` instead of the "
+                    "documented `<basename>_r...` (and a start time re-read from the clock at every name computation makes rotation and cleanup miss their own files)",
+                    where=b.loc())
+    if n < 3:
+        raise CheckError(f"R16.10: only {n} builder rows store a rotation or a file spec with rotation configured (3 confirmed by hand: rotate, o_rotate, file_spec)")
+
 
 def purity(R, ctx):
     f, cg = ctx.f, ctx.cg
